@@ -257,7 +257,7 @@ def history(rnd, idx, tier):
                               explain=rnd.random() < 0.4))
     ops.append(invoke([], j=2))
     ops.append(invoke([], j=2))
-    return scenario("hist-%d" % idx, ops, fam="hist")
+    return scenario("hist-%d" % idx, ops, fam="hist", cdir=rnd.choice(["", "", "", "proj", "a/b"]))
 
 
 def regen_history(rnd, idx, tier):
@@ -331,7 +331,7 @@ def regen_history(rnd, idx, tier):
         ops.append(inv(tg, outcomes))
     ops.append(inv())
     ops.append(inv())
-    return scenario("regen-%d" % idx, ops, fam="regen", versions=versions)
+    return scenario("regen-%d" % idx, ops, fam="regen", versions=versions, cdir=rnd.choice(["", "", "proj"]))
 
 
 def generate(seed, tier):
